@@ -12,6 +12,7 @@ def backendDispatch : Dispatch := fun op j =>
   | "wmi.qobj" => some (Wmi.opQobj j)
   | "wmi.counts" => some (Wmi.opCounts j)
   | "wmi.submit" => some (Wmi.opSubmit j)
+  | "wmi.ctrlname" => some (Wmi.opCtrlName j)
   | _ => none
 
 def main : IO Unit := driverMain backendDispatch
